@@ -25,12 +25,67 @@ def enc(v):
         items = [enc(x) for x in v]
         if all(i[0] in "NBIF" for i in items):
             return ["T" if type(v) is tuple else "L", items]
+    cs = getattr(v, "coordinates", None)
+    if type(v).__name__ in ("Vector", "PV") and isinstance(cs, tuple) and len(cs) == 3:
+        items = [enc(x) for x in cs]
+        if all(i[0] in "BIF" for i in items):
+            return ["V", items]
     return ["X", repr(v)[:80]]
+
+
+class PV:
+    """independent plain-Python 3D vector for the oracle of the vector cases (no shortcuts, no Scenic code)."""
+
+    def __init__(self, x, y, z=0):
+        self.coordinates = (x, y, z)
+
+    def __getitem__(self, i):
+        return self.coordinates[i]
+
+    def __len__(self):
+        return 3
+
+    def __add__(self, o):
+        return PV(self[0] + o[0], self[1] + o[1], self[2] + o[2])
+
+    def __radd__(self, o):
+        return PV(o[0] + self[0], o[1] + self[1], o[2] + self[2])
+
+    def __sub__(self, o):
+        return PV(self[0] - o[0], self[1] - o[1], self[2] - o[2])
+
+    def __rsub__(self, o):
+        return PV(o[0] - self[0], o[1] - self[1], o[2] - self[2])
+
+    def __mul__(self, k):
+        return PV(*(c * k for c in self.coordinates))
+
+    __rmul__ = __mul__
+
+    def __truediv__(self, k):
+        return PV(*(c / k for c in self.coordinates))
+
+    def rotatedBy(self, a):
+        x, y, z = self.coordinates
+        c, s = math.cos(a), math.sin(a)
+        return PV(c * x - s * y, s * x + c * y, z)
+
+    def __repr__(self):
+        return "PV" + repr(self.coordinates)
 
 
 def same(a, b):
     """Python equality, with a numeric tolerance fallback; returns 'eq' | 'close' | 'ne'."""
     try:
+        ca, cb = getattr(a, "coordinates", None), getattr(b, "coordinates", None)
+        if isinstance(ca, tuple) or isinstance(cb, tuple):
+            if not (isinstance(ca, tuple) and isinstance(cb, tuple) and len(ca) == len(cb)):
+                return "ne"
+            if all(type(x) is type(y) and x == y for x, y in zip(ca, cb)):
+                return "eq"
+            ok = all(isinstance(x, (int, float)) and isinstance(y, (int, float)) and
+                     math.isclose(x, y, rel_tol=1e-9, abs_tol=1e-9) for x, y in zip(ca, cb))
+            return "close" if ok else "ne"
         if type(a) in (tuple, list) and type(a) is type(b) and len(a) == len(b):
             rs = [same(x, y) for x, y in zip(a, b)]
             return "ne" if "ne" in rs else ("close" if "close" in rs else "eq")
@@ -55,7 +110,7 @@ def oracle_env():
     return {"max": max, "min": min, "abs": abs, "hypot": math.hypot, "sin": math.sin, "cos": math.cos,
             "Vector": Vector, "round": round, "namedtuple": collections.namedtuple, "__name__": "oracle",
             "__builtins__": {"len": len, "tuple": tuple, "list": list, "sum": sum, "type": type, "sorted": sorted,
-                             "max": max, "min": min, "abs": abs}}
+                             "max": max, "min": min, "abs": abs, "divmod": divmod}}
 
 
 def tyclass(v):
@@ -189,6 +244,8 @@ def run_expr_case(case):
                     samples.append(rec)
                     continue
         env = oracle_env()
+        if case.get("top") == "vec3":
+            env["Vector"] = PV
         leaves = {}
         try:
             for d, o in zip(case["defs"], leafobjs):
@@ -198,6 +255,8 @@ def run_expr_case(case):
                     env[d["var"]] = eval(d["py"], env)[sv]
                 else:
                     leaves[d["idx"]] = enc(sv)
+                    if case.get("top") == "vec3" and hasattr(sv, "coordinates"):
+                        sv = PV(*sv.coordinates)
                     env[d["var"]] = sv
             pv = ("ok", eval(case["py"], env))
         except Exception as e:
